@@ -35,10 +35,62 @@ macro_rules! dispatch {
     };
 }
 
+/// `verif probe <opts> tokens...` — triage helper: k:<ascii> K:<NAME>:<m>:<sel> w:<bengali> bs cbs c:<i> fin new
+fn probe(args: &[String]) {
+    use verif::driver::*;
+    driver::install_panic_hook();
+    let opts = Opts::parse(&args[0]);
+    let sb = Sandbox::new();
+    let mut ctx = Ctx::new(opts, &sb).expect("context");
+    let inv = if opts.is_phonetic() { Default::default() } else { layout_inverse(opts.layout) };
+    for tok in &args[1..] {
+        let show = |r: Result<Rendered, PanicInfo>, what: &str, ctx: &Ctx| match r {
+            Ok(r) => println!("{what} -> {} pre={:?} ongoing={}", r.short(), r.pre, ctx.ongoing()),
+            Err(p) => println!("{what} -> PANIC {p}"),
+        };
+        if let Some(t) = tok.strip_prefix("k:") {
+            for c in t.chars() {
+                show(ctx.ch(c, 0), &format!("{c:?}"), &ctx);
+            }
+        } else if let Some(t) = tok.strip_prefix("w:") {
+            for c in t.chars() {
+                match inv.get(&c.to_string()) {
+                    Some((code, m)) => show(ctx.key(*code, *m, 0), &format!("{c:?}"), &ctx),
+                    None => println!("{c:?} not typeable"),
+                }
+            }
+        } else if let Some(t) = tok.strip_prefix("K:") {
+            let p: Vec<&str> = t.split(':').collect();
+            let code = keys().by_name(p[0]).map(|k| k.code).or_else(|| p[0].parse().ok()).expect("key");
+            show(ctx.key(code, p.get(1).and_then(|x| x.parse().ok()).unwrap_or(0), p.get(2).and_then(|x| x.parse().ok()).unwrap_or(0)), tok, &ctx);
+        } else if tok == "bs" {
+            show(ctx.backspace(false), "bs", &ctx);
+        } else if tok == "cbs" {
+            show(ctx.backspace(true), "cbs", &ctx);
+        } else if let Some(t) = tok.strip_prefix("c:") {
+            println!("commit {t}: {:?} store={:?}", ctx.commit(t.parse().unwrap()), sb.parsed_selections());
+        } else if tok == "fin" {
+            println!("finish: {:?}", ctx.finish());
+        } else if tok == "new" {
+            ctx = Ctx::new(opts, &sb).expect("context");
+            println!("new context");
+        } else if let Some(t) = tok.strip_prefix("ac:") {
+            std::fs::write(sb.autocorrect_file(), t).unwrap();
+        } else if let Some(t) = tok.strip_prefix("sel:") {
+            std::fs::write(sb.selection_file(), t).unwrap();
+        }
+    }
+    driver::cleanup_scratch();
+}
+
 fn main() {
     let args: Vec<String> = std::env::args().collect();
     if args.len() < 2 {
         usage();
+    }
+    if args[1] == "probe" {
+        probe(&args[2..]);
+        return;
     }
     let id = args[1].clone();
     let mut tier = match std::env::var("VERIF_TIER").as_deref() {
@@ -102,7 +154,10 @@ fn main() {
         "C12" => c12,
         "C13" => c13,
         "C14" => c14,
+        "C15" => c15,
+        "C16" => c16,
         "C17" => c17,
+        "C18" => c18,
     );
     driver::cleanup_scratch();
     std::process::exit(code);
